@@ -115,6 +115,18 @@ func c10Programs(depth int) []*gen.Program {
 	return progs
 }
 
+// one name bound by a capture and by a named loop, then referenced
+var c10Collisions = []string{
+	"find all ('a') = n at least 0 'b' named n n",
+	"find all at least 1 (any = n) named n n",
+	"find all (letter = n) at least 0 ('b' = n) named n n",
+	"find all @/(?<n>a)/ at least 0 'b' named n n",
+	"find all at least 0 'b' named n ('a') = n n",
+	"replace all ('a') = n at least 0 'b' named n with n n",
+	"find all at least 1 ((any = n) n) named n",
+	"find all ('a') = n at least 0 'b' named n @/\\k<n>/",
+}
+
 func C10(r *drv.Run) {
 	r.BuildWorker()
 	depth, tlen := 2, 3
@@ -127,7 +139,7 @@ func C10(r *drv.Run) {
 	progs := c10Programs(depth)
 	texts := allTexts("ab\n", tlen)
 	r.Exhaustive = true
-	r.Rule = fmt.Sprintf("bounded-progress form of termination: every Run must return within %d VM steps (hook H1), a budget fixed at >= 100x the largest step count the enumerated scope needs on the unchanged tree. Scope enumerated completely: all programs of loop-nesting depth <= %d over nullable building blocks (literal, not-literal, any, line/word/file anchors and their negations, the empty group, not-in, whole word/line; loop forms maybe, at least 0, at most 2, between 0 and 2, at least 1, greedy and fewest; every level-1 program also under skip / skip-take / top / take / last clauses, as find and as replace; loops over loops, over (block loop) and over (loop or block); nullable bodies in subroutines called from loops; recursion guarded by each kind of consuming element: literal, not-literal, any, class, negated class, not-in, in) x all %d inputs over {a,b,\\n} up to length %d; plus seeded random deeper programs on inputs <= 8 bytes (there an over-budget run is skipped, not judged: crashes and guard trips still count). Non-trivial = the program contains an optional loop whose body can match the empty string and the run executed a loop instruction; distinct by (program, input).", budget, depth, len(texts), tlen)
+	r.Rule = fmt.Sprintf("bounded-progress form of termination: every Run must return within %d VM steps (hook H1), a budget fixed at >= 100x the largest step count the enumerated scope needs on the unchanged tree. Scope enumerated completely: all programs of loop-nesting depth <= %d over nullable building blocks (literal, not-literal, any, line/word/file anchors and their negations, the empty group, not-in, whole word/line; loop forms maybe, at least 0, at most 2, between 0 and 2, at least 1, greedy and fewest; every level-1 program also under skip / skip-take / top / take / last clauses, as find and as replace; loops over loops, over (block loop) and over (loop or block); nullable bodies in subroutines called from loops; recursion guarded by each kind of consuming element: literal, not-literal, any, class, negated class, not-in, in) x all %d inputs over {a,b,\\n} up to length %d; plus seeded random deeper programs on inputs <= 8 bytes, a third of them drawing on every construct (regex literals, named loops, whole-*, amount clauses, replace) with now and then one name bound both by a capture and by a named loop (there an over-budget run is skipped, not judged; what counts there: crashes, and the step monitor's no-progress verdict - one instruction executed 20 000 times in a row in the same attempt at the same input offset with unchanged backtrack/call/loop depths). Non-trivial = the program contains an optional loop whose body can match the empty string and the run executed a loop instruction; distinct by (program, input).", budget, depth, len(texts), tlen)
 	r.Assumptions = []string{
 		"unbounded 'always terminates' is restated as 'returns within the step budget'; max observed steps are in the evidence so the margin is visible",
 		"recursion only behind a consumed byte; no process-code loops",
@@ -147,15 +159,37 @@ func C10(r *drv.Run) {
 		sc.MaxDepth = 4
 		sc.Alpha = "ab"
 		p := gen.NewPG(rng, sc).FindProgram()
+		collided := false
+		if i%3 == 2 {
+			// every construct the harness knows, and now and then one name bound by a capture AND by a named loop
+			p = gen.AnyProgram(rng, i)
+			if rng.Chance(1, 2) {
+				p.Commands[0].Body, collided = gen.CollideNames(rng, p.Commands[0].Body)
+			}
+		}
 		src := gen.RenderProgram(p)
 		sm := gen.NewSampler(rng, p, []byte("ab\n "))
 		tx := sm.Inputs(p.Commands[0].Body, 8, maxLenFor(p, 8))
+		if i < len(c10Collisions) {
+			src, collided = c10Collisions[i], true
+			tx = [][]byte{[]byte("abba xabz"), []byte("aa"), []byte("abab"), []byte("b"), {}, []byte("a\nb aab")}
+		}
 		c := wire.Case{Op: "run", Src: []byte(src), Texts: tx, StepBudget: 1_000_000}
 		return &drv.Item{Case: c, Check: func(res *wire.Result) {
 			r.Count("random_programs", 1)
+			if collided {
+				if res.Compile != nil && !res.Compile.OK && res.Compile.Panic == nil {
+					r.Count("name_collision_programs_rejected", 1) // a clash the compiler refuses is no run at all
+					return
+				}
+				r.Count("name_collision_programs_run", 1)
+			}
 			c10Check(r, src, tx, &c, res, false, "random")
 		}}
 	})
+	if r.NViolations() == 0 && r.Counter("name_collision_programs_run") == 0 {
+		r.Inconclusive("coverage floor: no program with a capture and a named loop of one name was run")
+	}
 	if r.NViolations() == 0 && r.Counter("runs_with_loop_instructions") == 0 {
 		r.Inconclusive("no run executed a loop instruction")
 	}
@@ -201,6 +235,10 @@ func c10Check(r *drv.Run, src string, texts [][]byte, c *wire.Case, res *wire.Re
 		}
 		if run.Panic != nil {
 			r.Violate(&drv.Violation{Sig: "run-panic:" + run.Panic.Frame, Panic: run.Panic.Msg, Frame: run.Panic.Frame, Src: src, Text: string(text), Case: c})
+			continue
+		}
+		if stuck(run) {
+			r.Violate(&drv.Violation{Sig: "no-progress-spin", Src: src, Text: string(text), Case: c, Detail: map[string]any{"monitor": run.Budget}})
 			continue
 		}
 		if run.Budget != "" && scope == "random" {
